@@ -176,12 +176,25 @@ def main(tier, seed):
     ref_cases, ref_charts = [], {}
     samples = []
     import sismic.io
-    for k in range(n_charts):
-        chart = genchart.valid_chart(rng, profile)
+    import glob
+    corpus = []
+    for f in sorted(glob.glob('/verif/corpus/C17/*.json')):
+        try:
+            c = json.load(open(f))
+            corpus.append((sismic.io.import_from_yaml(c['chart_yaml']), [tuple(op) if not isinstance(op, tuple) else op for op in c['script']]))
+        except Exception:  # noqa
+            pass
+    stats['corpus'] = len(corpus)
+    for k in range(n_charts + len(corpus)):
+        if k < len(corpus):
+            chart, script0 = corpus[k]       # minimised past failures first
+        else:
+            chart, script0 = genchart.valid_chart(rng, profile), None
         cv = sx.chart_value(chart)
         names = [n for n, _ in cv['states']]
         evs = sorted({t.event for t in chart._transitions if t.event})
-        script = [metam.random_op(rng, fail_bits=True, names=evs) for _ in range(rng.randint(8, 20))]
+        script = script0 or [metam.random_op(rng, fail_bits=True, names=evs) for _ in range(rng.randint(8, 20))]
+        script = [(op[0],) + tuple(tuple(x) if isinstance(x, list) else x for x in op[1:]) for op in script]
         stats['charts'] += 1
         # ---- (a) rename_state through the API
         order, rho = monotone_renaming(rng, names, {n: chart.depth_for(n) for n in names})
